@@ -16,7 +16,7 @@
 From AV Require Import Lib.Base Gen.Consts H1.Chunked H1.PayloadDec H1.Framing
   Client.ClientCodec Client.PlStream Client.Pool Client.Conn Client.RespHead
   Client.RespDecProofs Client.BodyProofs Client.ClientProofs Client.PoolProofs
-  Client.PoolOwnership Client.LeftoverProofs Client.RespHeadLaws.
+  Client.PoolOwnership Client.LeftoverProofs Client.RespHeadLaws Gen.ClientTables Client.ClientTie.
 
 (* 1. Segmentation independence of the response body: two ways of cutting the same bytes into
       reads give the same body, the same ending and the same fate of the connection. *)
@@ -229,6 +229,73 @@ Proof. exact simple_rhead_laws. Qed.
    response until a further request arrives: the exchange stalls = time-out error; needs
    monotonicity of [exchange_sem] under extension of the stream), the interim-head loop of the
    proposed F17 patch at head level, heads of MAX_BUFFER_SIZE and more (finding F19 territory). *)
+
+(* 10. The models ARE the source text.  Gen/ClientTables.v is regenerated on every check run from
+       actix-http/src/h1/{decoder,client}.rs and awc/src/client/{h1proto,pool}.rs by
+       tools/gen/client.py (decisions as data, in source order); Client/ClientTie.v interprets it.
+       Each conjunct: the interpretation of the generated table = the model's function. *)
+Theorem C17_decisions_match_source :
+  (* the framing chain of set_headers: chunked, then upgrade, then content-length, then none -
+     the order C01's H1/Framing.plen_of tests (a response with both headers is chunked) *)
+  (forall a, interp_framing FRAMING_CHAIN a = plen_of a) /\
+  (* ClientCodec::decode: what is installed per payload type, nothing for HEAD *)
+  (forall c h pt,
+     codec_of c h pt =
+     let conn := match rh_conn_type h with
+                 | Some CKeepAlive => cc_conn c | Some ct => ct | None => cc_conn c end in
+     if negb (cc_head c)
+     then interp_install (lookup_install (pt_pat_of pt) CLIENT_INSTALL) (pt_kind pt) c conn
+     else interp_install CLIENT_INSTALL_HEAD None c conn) /\
+  (* ClientPayloadCodec: no decode_eof override (F9) and that is [v_orig] *)
+  (pc_decode_eof PAYLOAD_DECODE_EOF_OVERRIDE = deof_default pc_decode PEIo /\
+   f9_fixed v_orig = PAYLOAD_DECODE_EOF_OVERRIDE) /\
+  (* send_request: one head read, no interim loop (F17) and that is [v_orig] *)
+  (SEND_REQUEST_HEAD_READS = 1%nat /\ f17_fixed v_orig = SEND_REQUEST_INTERIM_LOOP) /\
+  (* ConnectionPool::call: pop_front, `idle > keep_alive || age > lifetime` => close, otherwise the
+     probe: Tainted => close, Skip => drop, Live => take *)
+  (forall c now chk conns, pick c now chk conns = interp_pick c now chk (deque_order POOL_POP conns)) /\
+  (* the probe's classification: data => Tainted, Pending => Live, else => Skip *)
+  (forall evs, arm_of (conn_state evs) = lookup_obs (obs_of evs) POOL_PROBE_CLASSIFY) /\
+  (* release pushes at the back; the permit is taken before the map is looked at *)
+  (forall l x, interp_push POOL_RELEASE_PUSH l x = l ++ [x]) /\ POOL_PERMIT_BEFORE_LOOKUP = true.
+Proof.
+  split; [exact tie_framing|]. split; [exact tie_client_install|]. split; [exact tie_decode_eof|].
+  split; [split; apply tie_send_request|]. split; [exact tie_pool_pick|]. split; [exact tie_probe|].
+  split; [intros; apply tie_pool_release|apply (tie_pool_release [] (mk_pooled 0 0 0))].
+Qed.
+
+(* ... the response-side payload decision (CL 0 => none; Payload; 101 => stream; HTTP/1.0 => close +
+   read-to-close; else none), the arms of ClientPayloadCodec::decode and of PlStream::poll_next
+   (only `Some(None)` = PayloadItem::Eof releases, with `codec.keep_alive()`) *)
+Theorem C17_decisions_match_source_response : forall hp maxb src len ver st hs pl ka ex,
+  hp src = RComplete len ver st hs -> (st <? 100) || (999 <? st) = false ->
+  set_headers ver hs = Some (pl, ka, ex) ->
+  response_decode hp maxb src =
+  let fl := match ka with Some c => set_ct c rflags0 | None => rflags0 end in
+  let '(fl', pt) := interp_rp RESPONSE_PAYLOAD_CHAIN (zero_reset RESPONSE_ZERO_CL_IS_NONE pl) st ver fl in
+  DOk (Some (mk_rhead ver st fl', pt, skipn len src)).
+Proof. exact tie_response. Qed.
+
+Theorem C17_decisions_match_source_payload : forall v c k f src segs closed,
+  (cc_payload c = Some k ->
+   pc_decode c src =
+   match pdecode k src with
+   | Ok (k', src', it) =>
+       let '(c', r) := interp_pc (lookup_pc (pc_pat_of it) PAYLOAD_CODEC_ARMS) c k' it in DOk (c', src', r)
+   | Err => DErr PEIo
+   | Pend => DPanic
+   | Pan => DPanic
+   end) /\
+  pl_poll_next v c f segs closed =
+  match pl_next v c f segs closed with
+  | (NItem (Some chunk) c' f', s) => (interp_pl (lookup_pl PlSomeChunk PLSTREAM_ARMS) chunk c' f', s)
+  | (NItem None c' f', s) => (interp_pl (lookup_pl PlSomeEnd PLSTREAM_ARMS) [] c' f', s)
+  | (NNone c' f', s) => (interp_pl (lookup_pl PlStreamEnd PLSTREAM_ARMS) [] c' f', s)
+  | (NErr e, s) => (PlErr e, s)
+  | (NPending _ _, s) => (PlPending, s)
+  | (NPanic, s) => (PlPanic, s)
+  end.
+Proof. intros. split; [apply tie_payload_codec|apply tie_plstream]. Qed.
 
 (* non-vacuity: a chunked body cut into three reads, keep-alive: delivered whole and released *)
 Example C17_example :
